@@ -103,6 +103,7 @@ def run_C01(tier, rnd, st, res):
     cases += list(gen_boundaries(rnd, frac=0.25 if tier == 'quick' else 1.0))
     cases += list(gen_multipart_boundaries(rnd, 150 if tier == 'quick' else 2000))
     cases += list(gen_requested_version_gap(rnd, 30 if tier == 'quick' else 300))
+    cases += list(gen_merge_histories(rnd, 25 if tier == 'quick' else 250))
     cases += list(gen_eci_boundaries(rnd, range(1, 5) if tier == 'quick' else range(1, 41)))
     if tier != 'quick':
         cases += [Case(bytes([a, b]), {}, 'two-bytes') for a in range(0, 256) for b in range(0, 256, 1)]
@@ -143,7 +144,7 @@ def run_C13(tier, rnd, st, res):
 def run_C04(tier, rnd, st, res):
     cases = list(gen_boundaries(rnd, micro_opts=(None,) if tier == 'quick' else (None, True, False)))
     cases += list(gen_multipart_boundaries(rnd, 250 if tier == 'quick' else 2500))
-    cases += list(gen_requested_version_gap(rnd, 40 if tier == 'quick' else 400))
+    cases += list(gen_requested_version_gap(rnd, 120 if tier == 'quick' else 800))
     cases += list(gen_eci_boundaries(rnd, range(1, 8) if tier == 'quick' else range(1, 41)))
     if tier == 'quick':
         cases += list(gen_boundaries(rnd, micro_opts=(True, False), frac=0.34))
